@@ -111,3 +111,8 @@ func strconvItoa(i int) string {
 	}
 	return string(b[p:])
 }
+
+func envForGo() []string {
+	env := os.Environ()
+	return append(env, "GOPROXY=off", "GOSUMDB=off", "GOTOOLCHAIN=local")
+}
